@@ -163,7 +163,10 @@ def _query_call(fn: Fn, c: ast.Call, ev: str) -> bool:
         return True
     if isinstance(c.func, ast.Name):
         defs = fn.reaching(c.func.id, c.func)
-        return bool(defs) and all(d.kind == "assign" and d.value is not None and is_q(d.value) for d in defs)
+        return bool(defs) and all(d.kind == "assign" and d.value is not None and (is_q(d.value) or (isinstance(d.value, ast.IfExp) and is_q(d.value.body) and is_q(d.value.orelse))) for d in defs)
+    if not isinstance(c.func, ast.Attribute):
+        # a query method selected by an expression: (a if c else b)(...), {flag: q1, ...}[flag](...)
+        return any(is_q(x) for x in ast.walk(c.func))
     return False
 
 
@@ -400,7 +403,7 @@ def run_r1(repo: Repo, res: Result) -> None:
                     res.add("C11.R1", repo.key(m, stmt_of(node)) + f" [{norm(shown, 80)}]", okr, "reads the converted requirement" if okr else f"{m.qualname} reads `{norm(shown)}`, which at the call `{norm(c, 50)}` is {'the un-converted (or a stale) requirement' if pre else 'not the result of the conversion'}: regex filters reach a detector / message generator", where(m, node), kind="flow")
         if assumed:
             res.observe(f"C11.R1: evaluated under the constructor state of a freshly created matcher ({', '.join(assumed)})")
-    res.floor("C11.R1", 4, nq)
+    res.floor("C11.R1", 1, nq)  # at least one graph query was found and judged (a view without queries is an ANALYSIS-ERROR above)
 
 
 # --------------------------------------------------------------------------------------------------------------- C11.R2
@@ -959,6 +962,7 @@ def run_r4(repo: Repo, res: Result) -> None:
         base_key = repo.key(view, key_node)
         if unknown or not contribs:
             res.undecide("C11.R4", base_key, "the construction of the query result is not recognised: " + ("; ".join(unknown[:2]) or "no entry is ever stored"), where(view, key_node))
+            n += 4  # the query was found; its four obligations are undecided, not missing
             continue
         # ---- all keys: one entry per element of the given module collections, nothing filtered
         bad: list[str] = []
@@ -1015,7 +1019,7 @@ def run_r4(repo: Repo, res: Result) -> None:
                         continue
                     ctx, orig = fn.ctx_of(a)
                     whole = False
-                    if ctx is fn.fi and parent(orig) is not None:
+                    if ctx is fn.fi and (parent(orig) is not None or hasattr(orig, "_at")):
                         da = co.normalise(co.describe(orig))
                         whole = not da.unknown and not da.removals and len(da.contribs) == 1 and not da.contribs[0].conds and len(da.contribs[0].binders) == 1 and da.contribs[0].binders[0].root and dotted(da.contribs[0].binders[0].source) in params and isinstance(da.contribs[0].elt, ast.Name) and da.contribs[0].elt.id in da.contribs[0].binders[0].names
                     if not whole:
